@@ -10,7 +10,10 @@ RULE = ("hx-loop runs the real bench_loop_threaded with sample_size unset under 
         "per-iteration costs from far below to far above the precision (constant, growing per round, jittered, per-thread "
         "skew), sample counts incl. default, input-based counters of any subset of the four kinds (bytes, chars, cycles, items) on one "
         "bencher with their own scripted per-input values, allocations inside the call, overhead subtraction; (3) max_time cutting the tuning "
-        "short. Sizes of successive rounds (from the call counters), recorded durations, final size, Stats figures and the "
+        "short; (4) end to end: tuned benchmarks of hx-loop-e2e run through Divan::main on the virtual clock with max_time as the only runtime "
+        "option (--max-time, DIVAN_MAX_TIME, or Divan::max_time before config_with_args) reaching benchmarks with no, an attribute or a group "
+        "option; the rounds and their sizes are read from the dumped event log, the model is driven by the same history and c19_e2e_sb is evaluated. "
+        "Sizes of successive rounds (from the call counters), recorded durations, final size, Stats figures and the "
         "timestamp log are printed; the log drives the extracted model; the extracted c19_sb is evaluated on the "
         "implementation's output. Non-trivial = agreed `ok` line with at least one round; distinct by input line.")
 ASSUMPTIONS = [
@@ -49,8 +52,10 @@ def streams(tier, rng):
         if L.fits(c):
             rand.append(c)
     cut = L.tuned_cut_cases(rng, n_cut)
+    cli = L.c19_cli_cases(rng, 45 if not big else 300)
     return [
         L.make_stream("c19-corpus", "c19", L.corpus("C19")),
+        L.c19_cli_stream("c19-e2e-max-time-covers-tuning", cli),
         L.make_stream("c19-precision-zero-panics", "c19", L.corpus("loop"), sb=False,
                       describe="precision override 0: `slowest / precision` panics (DivByZero) in the crate and in the model; outside the property"),
         L.make_stream("c19-threshold", "c19", thr, hist=L.histogram(thr),
